@@ -24,6 +24,13 @@ RULE = ("stateful histories mixing every direct operation; after each step 'obse
 ASSUMPTIONS = ["definitions: volume = sum of per-substance volumes; concentration = solute amount / size of whole "
                "mixture in the denominator unit; rounding to config.precisions / internal_precision",
                "observers whose denominator is zero for the vessel are skipped (undefined)"]
+def shard_config(shard, tier):
+    """two of eight shards run under other documented default densities: solids/enzymes without volume (inf), and
+    finite densities other than 1"""
+    return {5: {'default_solid_density': float('inf'), 'default_enzyme_density': float('inf')},
+            6: {'default_solid_density': 2.5, 'default_enzyme_density': 0.4}}.get(shard % 8)
+
+
 REQUIRED_CLASSES = {'quick': ['obs:volume', 'obs:get_concentration', 'obs:get_volumes', 'obs:get_moles'],
                     'thorough': ['obs:volume', 'obs:get_concentration', 'obs:get_volumes', 'obs:get_moles',
                                  'obs:get_substances', 'obs:plate.get_volume']}
